@@ -280,6 +280,14 @@ class InMemoryStorage(BaseStorage):
             if state == TrialState.RUNNING:
                 trial.datetime_start = datetime.now()
 
+            if state == TrialState.WAITING:
+                # Keep the cursor used by ``get_all_trials(states=(TrialState.WAITING,))`` at or
+                # below every waiting trial.
+                study_id = self._trial_id_to_study_id_and_number[trial_id][0]
+                self._prev_waiting_trial_number[study_id] = min(
+                    self._prev_waiting_trial_number[study_id], trial.number
+                )
+
             if state.is_finished():
                 trial.datetime_complete = datetime.now()
                 self._set_trial(trial_id, trial)
